@@ -13,7 +13,7 @@ from .c02_witness import VERDICTS, WITNESSES
 
 PID = "C02"
 PROPS_FILE = "props/C02.v"
-MODEL_TARGETS = ["model/Commute.vo"]
+MODEL_TARGETS = ["model/Commute.vo", "model/CommuteBuild.vo"]
 RULE = ("E2 both orders: states reached by the seeded e2 generator (real Workflow + Scheduler, in-memory "
         "SQLite) with at least two running commands; pairs of requests (declare_static / define_step / "
         "amend_step / CONFIRMED hash result / exec_end) of two DIFFERENT running steps over a pool of 2-4 "
